@@ -19,6 +19,15 @@ CLAIMED = {
         design_ref="DESIGN.md §7 C20"),
 }
 
+CLAIMED["C02"] = dict(
+    text="Proof (Lean 4) of the integer rules for every PCM layout (MSB-keeping moves, widening zero-pads, narrowing truncates, u8 offset, short/int "
+         "cross-type agreement, byte (de)serialisation round trip) over all integers; the float/double kernels (normalisation, clipping, scale flags, lrint/SSE2 "
+         "variants, G.711 entry points) are modelled bit-exactly on dyadic rationals and tied to the code by correspondence: exhaustive on all 2^8/2^16 codes and "
+         "all 2^16 shorts for every encoding, boundary+seeded-random for 24/32-bit and floating inputs; the documented rule is re-evaluated on the implementation's "
+         "own output with exact rational arithmetic. Partial: float-kernel theorems (clip_saturates, float_read_exact) are being added.",
+    technique="Lean 4 theorems over a hand-written bit-exact kernel model + exhaustive/sampled correspondence through the RAW container",
+    design_ref="DESIGN.md §7 C02")
+
 PENDING_REASON = "check under construction in this round (DESIGN.md §7 gives the plan); not claimed until its check passes on the clean tree"
 
 
